@@ -31,6 +31,7 @@ from __future__ import annotations
 
 import ast
 import itertools
+from types import SimpleNamespace
 
 from ..core import AnalysisError
 from ..core import norm
@@ -38,8 +39,14 @@ from ..model import attr_chain
 from ..model import eval_order
 from ..model import last_attr
 from ..paths import C
-from ..paths import R
+from ..paths import class_names
+from ..paths import Engine
 from ..paths import is_const
+from ..paths import Out
+from ..paths import R
+from ..paths import Spec
+from ..paths import State
+from ..paths import UNKNOWN
 from ..selftest import Mutant
 from ._helpers_A import ASpec
 from ._helpers_A import compare_pair
@@ -66,6 +73,366 @@ REG = {
 
 I = "mitmproxy/proxy/layers/http/__init__.py"
 CONN = "mitmproxy/connection.py"
+
+
+# ---------------------------------------------------------------------------------------------------
+# Value-based path analysis.  The rules below name things by what they ARE BOUND TO, not by how they are spelled:
+#   * names are resolved in the frame they belong to (helpers inlined by the engine have their own frame),
+#   * an attribute chain is canonicalised through the binding of its root (`command.err` inside a helper called with
+#     command=event reads `event.err`; the loop variable of a for-loop reads as the symbol the rule gave it),
+#   * predicate temporaries (`pending = c in self.waiting`; `if pending:`) and tuple temporaries are deferred and decided /
+#     recorded where they are tested, `return <predicate>` of an inlined helper is decided atom by atom,
+#   * `x: T = a if c else b` forks like the if/else it abbreviates, a for-loop over a value known to be empty is not entered,
+#   * `name in CONSTANT` is decided through the module-level literal.
+EMPTY = ("empty",)
+_PRED = (ast.Compare, ast.BoolOp)
+
+
+def sym(name):
+    return ("sym", name)
+
+
+def _is_pred(e):
+    return isinstance(e, _PRED) or (isinstance(e, ast.UnaryOp) and isinstance(e.op, ast.Not))
+
+
+def _is_deferred(v, kind="cexpr"):
+    return isinstance(v, tuple) and len(v) == 3 and v[0] == kind
+
+
+def canon_chain(expr, st, sp):
+    """Dotted text of a Name / attribute chain with the root name replaced by its binding: a parameter of the analysed function
+    (('param', p) -> p), a reference (R(chain) -> chain), a rule symbol (('sym', s) -> s), None (-> 'None').  Roots without a known
+    binding keep their spelling (marked with the frame depth inside inlined helpers, so that they cannot be mistaken for a name of
+    the analysed function).  '' when ``expr`` is not such a chain."""
+    parts = []
+    e = expr
+    while isinstance(e, ast.Attribute):
+        parts.append(e.attr)
+        e = e.value
+    if isinstance(e, ast.Constant) and e.value is None and not parts:
+        return "None"
+    if not isinstance(e, ast.Name):
+        return ""
+    root = e.id
+    if root != "self":
+        v = sp.v(e, st)
+        if isinstance(v, tuple) and len(v) == 2 and v[0] in ("param", "sym", "r") and isinstance(v[1], str):
+            root = v[1]
+        elif is_const(v) and v[1] is None and not parts:
+            return "None"
+        elif sp.cur_depth and sp.is_local(e):
+            root = f"{root}@{sp.cur_depth}"
+    return ".".join([root] + parts[::-1])
+
+
+def truthiness_subject(expr):
+    """(subject_expr, polarity) for a leaf that tests truthiness / None-ness of one expression: `x`, `bool(x)`, `x is not None`,
+    `x != None` -> (x, True); `x is None`, `x == None` -> (x, False); None for everything else."""
+    if isinstance(expr, (ast.Name, ast.Attribute)):
+        return expr, True
+    if isinstance(expr, ast.Call) and isinstance(expr.func, ast.Name) and expr.func.id == "bool" and len(expr.args) == 1 and not expr.keywords:
+        return truthiness_subject(expr.args[0])
+    if isinstance(expr, ast.Compare) and len(expr.ops) == 1:
+        l, r, op = expr.left, expr.comparators[0], expr.ops[0]
+        if isinstance(l, ast.Constant) and l.value is None:
+            l, r = r, l
+        if isinstance(r, ast.Constant) and r.value is None and isinstance(l, (ast.Name, ast.Attribute)):
+            if isinstance(op, (ast.IsNot, ast.NotEq)):
+                return l, True
+            if isinstance(op, (ast.Is, ast.Eq)):
+                return l, False
+    return None
+
+
+def _multi_assigned(fn) -> set:
+    """Names bound more than once in ``fn`` (parameters count as one binding)."""
+    n: dict = {}
+    a = fn.args
+    for p in a.posonlyargs + a.args + a.kwonlyargs + ([a.vararg] if a.vararg else []) + ([a.kwarg] if a.kwarg else []):
+        n[p.arg] = 1
+    for x in ast.walk(fn):
+        if isinstance(x, ast.Name) and isinstance(x.ctx, (ast.Store, ast.Del)):
+            n[x.id] = n.get(x.id, 0) + 1
+        elif isinstance(x, ast.ExceptHandler) and x.name:
+            n[x.name] = n.get(x.name, 0) + 1
+        elif isinstance(x, ast.AugAssign) and isinstance(x.target, ast.Name):
+            n[x.target.id] = n.get(x.target.id, 0) + 1
+    return {k for k, c in n.items() if c > 1}
+
+
+class DSpec(ASpec):
+    """ASpec whose hooks see values in the right frame (``cur_depth``), with symbolic loop variables (``loop_value(for_node, st, spec)``),
+    deferred predicate / tuple temporaries and module-level literals (``const_resolver(expr) -> literal node | None``)."""
+
+    cur_depth = 0
+    replaying = 0
+
+    def __init__(self, *a, loop_value=None, const_resolver=None, **kw):
+        super().__init__(*a, **kw)
+        self._loop_value = loop_value
+        self._const_resolver = const_resolver
+        self._synth: dict = {}
+        self._multi: dict = {}
+
+    # ---- frames
+    def v(self, expr, st):
+        return self.value(expr, st, self.cur_depth)
+
+    def at(self, depth, f, *a):
+        old = self.cur_depth
+        self.cur_depth = depth
+        try:
+            return f(*a)
+        finally:
+            self.cur_depth = old
+
+    def events(self, node, st):
+        if self.replaying:
+            return []  # a deferred predicate is being decided: it was evaluated (and labelled) where it was bound
+        return ASpec.events(self, node, st)
+
+    # ---- values
+    def value(self, expr, st, depth):
+        return self.at(depth, self._value, expr, st, depth)
+
+    def _value(self, expr, st, depth):
+        if expr is None:
+            return C(None)
+        if self._val is not None:
+            v = self._val(expr, st, self)
+            if v is not None:
+                return v
+        if isinstance(expr, ast.Attribute):
+            c = canon_chain(expr, st, self)
+            if c:
+                return st.get(c) if st.has(c) else R(c)
+        if (isinstance(expr, (ast.List, ast.Tuple, ast.Set)) and not expr.elts) or (isinstance(expr, ast.Dict) and not expr.keys):
+            return EMPTY
+        if isinstance(expr, ast.Call) and isinstance(expr.func, ast.Name) and expr.func.id in ("list", "tuple", "set", "frozenset", "dict", "sorted", "reversed") and not expr.keywords:
+            if not expr.args or (len(expr.args) == 1 and self.value(expr.args[0], st, depth) == EMPTY):
+                return EMPTY
+        v = Spec.value(self, expr, st, depth)
+        if v == UNKNOWN and (_is_pred(expr) or isinstance(expr, ast.Tuple)) and self.defer_ok(expr):
+            return ("cexpr" if _is_pred(expr) else "tup", expr, depth)
+        return v
+
+    def is_local(self, name_node) -> bool:
+        """Is the Name a local of its function (parameter or bound there) rather than a module-level / builtin name?"""
+        fn = name_node
+        while fn is not None and not isinstance(fn, (ast.FunctionDef, ast.AsyncFunctionDef)):
+            fn = getattr(fn, "_parent", None)
+        if fn is None:
+            return True
+        key = ("locals", id(fn))
+        if key not in self._multi:
+            a = fn.args
+            names = {p.arg for p in a.posonlyargs + a.args + a.kwonlyargs + ([a.vararg] if a.vararg else []) + ([a.kwarg] if a.kwarg else [])}
+            names |= {x.id for x in ast.walk(fn) if isinstance(x, ast.Name) and isinstance(x.ctx, (ast.Store, ast.Del))}
+            names |= {x.name for x in ast.walk(fn) if isinstance(x, ast.ExceptHandler) and x.name}
+            self._multi[key] = names
+        return name_node.id in self._multi[key]
+
+    def defer_ok(self, expr) -> bool:
+        """May the evaluation of ``expr`` be postponed to the place where the temporary holding it is tested?  Only when every local
+        name it reads is bound once in its function (so it reads the same objects there)."""
+        fn = expr
+        while fn is not None and not isinstance(fn, (ast.FunctionDef, ast.AsyncFunctionDef)):
+            fn = getattr(fn, "_parent", None)
+        if fn is None:
+            return False
+        if id(fn) not in self._multi:
+            self._multi[id(fn)] = _multi_assigned(fn)
+        multi = self._multi[id(fn)]
+        return not any(isinstance(n, ast.Name) and n.id in multi for n in ast.walk(expr))
+
+    def tuple_elts(self, expr, st, depth):
+        if isinstance(expr, ast.Tuple):
+            return list(expr.elts)
+        if isinstance(expr, ast.Name):
+            v = self.value(expr, st, depth)
+            if _is_deferred(v, "tup") and v[2] == depth:
+                return list(v[1].elts)
+        return None
+
+    def truth(self, expr, st, depth):
+        # (a, b) == (c, d)  <=>  a == c and b == d  (element-wise equality of plain tuples), also through tuple temporaries
+        if isinstance(expr, ast.Compare) and len(expr.ops) == 1 and isinstance(expr.ops[0], (ast.Eq, ast.NotEq)):
+            a, b = self.tuple_elts(expr.left, st, depth), self.tuple_elts(expr.comparators[0], st, depth)
+            if a is not None and b is not None:
+                if len(a) != len(b):
+                    return isinstance(expr.ops[0], ast.NotEq)
+                key = ("tupeq", id(expr))
+                if key not in self._synth:
+                    conj = ast.BoolOp(op=ast.And(), values=[ast.Compare(left=x, ops=[ast.Eq()], comparators=[y]) for x, y in zip(a, b)])
+                    for n in ast.walk(conj):
+                        if not hasattr(n, "lineno"):
+                            ast.copy_location(n, expr)
+                    self._synth[key] = conj
+                t = self.truth(self._synth[key], st, depth)
+                return t if t is None or isinstance(expr.ops[0], ast.Eq) else (not t)
+        return ASpec.truth(self, expr, st, depth)
+
+    def decide_leaf(self, cond, st, depth):
+        return self.at(depth, self._decide_leaf, cond, st, depth)
+
+    def _decide_leaf(self, cond, st, depth):
+        if isinstance(cond, (ast.Name, ast.Attribute)) and self.value(cond, st, depth) == EMPTY:
+            return False
+        return ASpec.decide_leaf(self, self.resolved_membership(cond, st, depth), st, depth)
+
+    def resolved_membership(self, cond, st, depth):
+        """`x in NAME` -> `x in <literal>` when NAME is a module-level literal (asked of the rule's const_resolver)."""
+        if self._const_resolver is None or not (isinstance(cond, ast.Compare) and len(cond.ops) == 1 and isinstance(cond.ops[0], (ast.In, ast.NotIn))):
+            return cond
+        c = cond.comparators[0]
+        if isinstance(c, ast.Name) and st.has(f"{depth}:{c.id}"):
+            return cond
+        if not isinstance(c, (ast.Name, ast.Attribute)):
+            return cond
+        key = ("member", id(cond))
+        if key not in self._synth:
+            lit = self._const_resolver(c)
+            if lit is None:
+                self._synth[key] = cond
+            else:
+                new = ast.Compare(left=cond.left, ops=cond.ops, comparators=[lit])
+                ast.copy_location(new, cond)
+                self._synth[key] = new
+        return self._synth[key]
+
+    def cond_event(self, expr, value, st):
+        return ASpec.cond_event(self, self.resolved_membership(expr, st, self.cur_depth), value, st)
+
+    def iter_is_empty(self, expr, st, depth) -> bool:
+        if isinstance(expr, ast.IfExp):
+            d = self.decide(expr.test, st, depth)
+            return d is not None and self.iter_is_empty(expr.body if d else expr.orelse, st, depth)
+        return self.value(expr, st, depth) == EMPTY
+
+    # ---- bindings
+    def bind(self, target, value_expr, st, depth, value=None):
+        if value_expr is None and value == UNKNOWN and self._loop_value is not None and isinstance(target, ast.Name):
+            p = getattr(target, "_parent", None)
+            if isinstance(p, (ast.For, ast.AsyncFor)) and p.target is target:
+                lv = self.at(depth, self._loop_value, p, st, self)
+                if lv is not None:
+                    value = lv
+        return Spec.bind(self, target, value_expr, st, depth, value=value)
+
+
+class DEngine(Engine):
+    """Path engine for DSpec (see the section comment)."""
+
+    def __init__(self, spec):
+        super().__init__(spec)
+        self._assigns: dict = {}
+
+    def call(self, fn, call, states, depth):
+        sp = self.spec
+        res = sp.at(depth + 1, Engine.call, self, fn, call, states, depth)
+        # a deferred value of the callee's frame means nothing in the caller's
+        fix = lambda s: s.set("$ret", UNKNOWN) if (_is_deferred(s.get("$ret")) or _is_deferred(s.get("$ret"), "tup")) else s  # noqa: E731
+        res.ret = {fix(s) for s in res.ret}
+        return res
+
+    def cond(self, expr, states, depth):
+        sp = self.spec
+        if isinstance(expr, ast.Name):
+            plain, groups = set(), {}
+            for s in states:
+                v = sp.value(expr, s, depth)
+                if _is_deferred(v):
+                    groups.setdefault((id(v[1]), v[2]), (v[1], set()))[1].add(s)
+                else:
+                    plain.add(s)
+            if groups:
+                T, F, ab = Engine.cond(self, expr, plain, depth) if plain else (set(), set(), Out.empty())
+                for (_, d), (node, ss) in groups.items():
+                    sp.replaying += 1
+                    try:
+                        t, f, a = sp.at(d, self.cond, node, ss, d)
+                    finally:
+                        sp.replaying -= 1
+                    T |= t
+                    F |= f
+                    ab.merge_abrupt(a)
+                return T, F, ab
+        return Engine.cond(self, expr, states, depth)
+
+    def stmt(self, node, states, depth):
+        sp = self.spec
+        if isinstance(node, ast.AnnAssign) and isinstance(node.value, ast.IfExp):
+            if id(node) not in self._assigns:
+                new = ast.Assign(targets=[node.target], value=node.value)
+                ast.copy_location(new, node)
+                new._parent = getattr(node, "_parent", None)
+                self._assigns[id(node)] = new
+            node = self._assigns[id(node)]
+        if isinstance(node, ast.Return) and depth > 0 and node.value is not None:
+            # `return <predicate>` of an inlined helper: decided leaf by leaf, so its atoms appear on the caller's path
+            if _is_pred(node.value):
+                pred = set(states)
+            elif isinstance(node.value, ast.Name):
+                pred = {s for s in states if _is_deferred(sp.value(node.value, s, depth))}
+            else:
+                pred = set()
+            if pred:
+                out = Engine.stmt(self, node, states - pred, depth) if states - pred else Out.empty()
+                t, f, ab = self.cond(node.value, pred, depth)
+                out.merge_abrupt(ab)
+                out.ret |= {s.set("$ret", C(True)) for s in t} | {s.set("$ret", C(False)) for s in f}
+                return out
+        return Engine.stmt(self, node, states, depth)
+
+    def _loop(self, node, states, depth, is_for):
+        sp = self.spec
+        if is_for:
+            empty = {s for s in states if sp.iter_is_empty(node.iter, s, depth)}
+            if empty:
+                out = Engine._loop(self, node, states - empty, depth, is_for) if states - empty else Out.empty()
+                skipped = {self._loop_ev(node, False, s.emit(*sp.events(node.iter, s))) for s in empty}
+                if node.orelse:
+                    oe = self.block(node.orelse, skipped, depth)
+                    out.merge_abrupt(oe)
+                    out.normal |= oe.normal
+                else:
+                    out.normal |= skipped
+                return out
+        return Engine._loop(self, node, states, depth, is_for)
+
+
+def run_d(stmts, spec, bindings=None):
+    """Terminal (trace, how, state) triples of a statement list run by DEngine."""
+    eng = DEngine(spec)
+    o = eng.run(SimpleNamespace(body=list(stmts)), State((), {}), bindings)
+    out = [(s.trace, "return", s) for s in o.ret]
+    for s in o.exc:
+        e = s.get("$exc")
+        out.append((s.trace, "raise:" + (e[1] if is_const(e) else "?"), s))
+    return out, eng
+
+
+def _helper_resolver_in(ctx, rel, cls_qual, stop):
+    """Inline ``self.<helper>(...)`` calls that resolve to a method defined in module ``rel`` (extracted private helpers), except the
+    class's own entry points in ``stop``."""
+
+    def resolver(call):
+        f = call.func
+        if isinstance(f, ast.Attribute) and isinstance(f.value, ast.Name) and f.value.id == "self" and f.attr not in stop:
+            r = ctx.model.method(rel, cls_qual, f.attr)
+            if r is not None and r[0].rel == rel:
+                return r[1]
+        return None
+
+    return resolver
+
+
+def _helper_resolver(ctx, cls_qual, stop):
+    return _helper_resolver_in(ctx, I, cls_qual, stop)
+
+
+ENTRY_POINTS = ("event_to_child", "get_connection", "register_connection", "make_stream", "_handle_event")
 
 
 # ---------------------------------------------------------------------------------------------------
@@ -98,38 +465,42 @@ def _spec_domain(ctx, cls, fields):
 
 
 def _r081_paths(ctx, fn, fields, cand):
-    """Symbolic reading of the predicate (equality atoms over all values).  {row: bool} or None when the predicate has a shape the atoms do not cover."""
+    """Symbolic reading of the predicate (equality atoms over all values; the compared things are recognised by what they are bound to,
+    tuples are compared element-wise, early returns are paths).  {row: (ok, results)} or None when the predicate is not decided by
+    the isinstance atom and the field equalities alone (then only the interpretation speaks)."""
 
     def atom(expr, st, sp):
-        io = isinstance_of(expr)
-        if io and isinstance(io[0], ast.Name) and io[0].id == cand and io[1] == ["Server"]:
-            return ("IS", True)
+        if isinstance(expr, ast.Call) and isinstance(expr.func, ast.Name) and expr.func.id == "isinstance" and len(expr.args) == 2 and not expr.keywords:
+            if canon_chain(expr.args[0], st, sp) == cand and class_names(expr.args[1]) == ["Server"]:
+                return ("IS", True)
         cp = compare_pair(expr, (ast.Eq, ast.NotEq))
         if cp:
-            a, b = attr_chain(cp[0]), attr_chain(cp[1])
+            a, b = canon_chain(cp[0], st, sp), canon_chain(cp[1], st, sp)
             for f in fields:
                 if {a, b} == {f"self.{f}", f"{cand}.{f}"}:
                     return ("EQ_" + f, isinstance(cp[2], ast.Eq))
         return None
 
+    resolver = _helper_resolver(ctx, "GetHttpConnection", ())
     out = {}
     try:
-        sc = {"IS": True}
-        sc.update({"EQ_" + f: True for f in fields})
-        traces, _ = run_block(fn.body, ASpec(atom=atom, scenario=sc), {cand: ("param", cand)})
-        res = {s.get("$ret") for _, how, s in traces}
-        if not traces or C(False) in res:
-            return None  # not understood through equality atoms alone
-        for name in ["IS"] + ["EQ_" + f for f in fields]:
+        for name in [None, "IS"] + ["EQ_" + f for f in fields]:
             sc = {"IS": True}
             sc.update({"EQ_" + f: True for f in fields})
-            sc[name] = False
-            traces, _ = run_block(fn.body, ASpec(atom=atom, scenario=sc), {cand: ("param", cand)})
+            if name is not None:
+                sc[name] = False
+            traces, _ = run_d(fn.body, DSpec(atom=atom, scenario=sc, resolver=resolver), {cand: ("param", cand)})
             ctx.cells += 1
-            if not traces:
+            if not traces or any(how != "return" for _, how, _ in traces):
                 return None
-            res = {s.get("$ret") for _, how, s in traces if how == "return"}
-            out[name] = (res == {C(False)} and all(how == "return" for _, how, _ in traces), sorted(map(str, res)))
+            res = {s.get("$ret") for _, _, s in traces}
+            if not res <= {C(True), C(False)}:
+                return None  # something else than the atoms takes part in the decision
+            if name is None:
+                if res != {C(True)}:
+                    return None
+            else:
+                out[name] = (res == {C(False)}, sorted(map(str, res)))
     except AnalysisError:
         return None
     return out
@@ -207,86 +578,125 @@ def _r081(ctx):
 
 
 # ---------------------------------------------------------------------------------------------------
-def _gc_spec(ev, loopvar, scenario):
-    def conn_tag(e):
-        if isinstance(e, ast.Name) and e.id == loopvar:
-            return "loop"
-        if isinstance(e, ast.Constant) and e.value is None:
-            return "None"
-        return attr_chain(e) or norm(e)
+def _conn_tag(e, st, sp):
+    return canon_chain(e, st, sp) or norm(e)
+
+
+def _gc_spec(ctx, ev, scenario, fn):
+    """Alphabet of get_connection.  Values: ('match', conn) result of <request>.connection_spec_matches(conn); ('reply', conn, err) a
+    2-tuple; ('completion', cmd, conn, err) a GetHttpConnectionCompleted; ('waitlist', conn) = self.waiting_for_establishment[conn];
+    the variable of a for-loop is the symbol `loop`.  Events: ('complete', conn, err) when a completion is handed to event_to_child,
+    ('wait', conn, cmd), ('new_server', kwargs), ('set', chain, source), ('register', conn, layer), ('push', layer class)."""
 
     def val(expr, st, sp):
-        if isinstance(expr, ast.Call) and isinstance(expr.func, ast.Attribute) and expr.func.attr == "connection_spec_matches" and len(expr.args) == 1:
-            if attr_chain(expr.func.value) != ev:
+        if isinstance(expr, ast.Call) and isinstance(expr.func, ast.Attribute) and expr.func.attr == "connection_spec_matches" and len(expr.args) == 1 and not expr.keywords:
+            if canon_chain(expr.func.value, st, sp) != ev:
                 raise AnalysisError(f"connection_spec_matches called on {norm(expr.func.value)}, not on the request being served")
-            return ("match", conn_tag(expr.args[0]))
+            return ("match", _conn_tag(expr.args[0], st, sp))
+        if isinstance(expr, ast.Call) and last_attr(expr.func) == "GetHttpConnectionCompleted":
+            r = sp.v(expr.args[1], st) if len(expr.args) == 2 and not expr.keywords else None
+            if not (isinstance(r, tuple) and r and r[0] == "reply"):
+                raise AnalysisError(f"unmodelled completion {norm(expr)}")
+            return ("completion", _conn_tag(expr.args[0], st, sp), r[1], r[2])
+        if isinstance(expr, ast.Tuple) and len(expr.elts) == 2 and isinstance(expr.ctx, ast.Load):
+            return ("reply", _conn_tag(expr.elts[0], st, sp), _conn_tag(expr.elts[1], st, sp))
+        if isinstance(expr, ast.Subscript) and isinstance(expr.ctx, ast.Load) and canon_chain(expr.value, st, sp) == "self.waiting_for_establishment":
+            return ("waitlist", _conn_tag(expr.slice, st, sp))
         return None
 
     def label(node, st, sp):
         out = []
         for n in eval_order(node):
-            if isinstance(n, ast.Call):
-                if last_attr(n.func) == "GetHttpConnectionCompleted" and len(n.args) == 2:
-                    t = n.args[1]
-                    if not (isinstance(n.args[0], ast.Name) and n.args[0].id == ev and isinstance(t, ast.Tuple) and len(t.elts) == 2):
-                        raise AnalysisError(f"unmodelled completion {norm(n)}")
-                    e1 = t.elts[1]
-                    err = "None" if isinstance(e1, ast.Constant) and e1.value is None else ("loop.error" if attr_chain(e1) == f"{loopvar}.error" else attr_chain(e1) or norm(e1))
-                    out.append(("complete", conn_tag(t.elts[0]), err))
-                elif isinstance(n.func, ast.Attribute) and n.func.attr == "append" and isinstance(n.func.value, ast.Subscript) and attr_chain(n.func.value.value) == "self.waiting_for_establishment":
-                    out.append(("wait", conn_tag(n.func.value.slice), norm(n.args[0]) if n.args else "?"))
+            if not isinstance(n, ast.Call):
+                if isinstance(n, (ast.Yield, ast.YieldFrom, ast.Return)) and n.value is not None and not isinstance(n.value, ast.Call):
+                    if sp.v(n.value, st)[:1] == ("completion",):
+                        raise AnalysisError(f"a GetHttpConnectionCompleted leaves get_connection by an unmodelled route: {norm(n)}")
+                continue
+            if last_attr(n.func) == "GetHttpConnectionCompleted":
+                continue  # a value; it counts where it is delivered
+            if isinstance(n.func, ast.Attribute) and n.func.attr == "event_to_child" and len(n.args) == 2 and not n.keywords:
+                v = sp.v(n.args[1], st)
+                if v[:1] == ("completion",):
+                    if v[1] != ev:
+                        raise AnalysisError(f"get_connection completes another command than the one it serves: {norm(n)}")
+                    out.append(("complete", v[2], v[3]))
+                continue
+            for a in list(n.args) + [k.value for k in n.keywords]:
+                if isinstance(a, (ast.Name, ast.Call)) and sp.v(a, st)[:1] == ("completion",):
+                    raise AnalysisError(f"a GetHttpConnectionCompleted is passed to something else than event_to_child: {norm(n)}")
+            if isinstance(n.func, ast.Attribute) and n.func.attr in ("append", "extend", "insert"):
+                r = sp.v(n.func.value, st)
+                if r[:1] == ("waitlist",):
+                    if n.func.attr != "append" or len(n.args) != 1:
+                        raise AnalysisError(f"unmodelled update of waiting_for_establishment: {norm(n)}")
+                    out.append(("wait", r[1], _conn_tag(n.args[0], st, sp)))
         if isinstance(node, ast.Assign):
             for t in node.targets:
-                ch = attr_chain(t)
+                ch = canon_chain(t, st, sp)
                 if ch == "context.server":
                     v = node.value
                     if isinstance(v, ast.Call) and last_attr(v.func) == "Server" and not v.args:
-                        out.append(("new_server", tuple(sorted((k.arg, attr_chain(k.value) or norm(k.value)) for k in v.keywords))))
+                        out.append(("new_server", tuple(sorted((k.arg, canon_chain(k.value, st, sp) or norm(k.value)) for k in v.keywords))))
                     else:
                         out.append(("new_server", ("?", norm(v))))
                 elif ch.startswith("context.server."):
-                    out.append(("set", ch, attr_chain(node.value) or "<expr>"))
-                elif isinstance(t, ast.Subscript) and attr_chain(t.value) == "self.connections":
-                    out.append(("register", conn_tag(t.slice), norm(node.value)))
+                    out.append(("set", ch, canon_chain(node.value, st, sp) or "<expr>"))
+                elif isinstance(t, ast.Subscript) and canon_chain(t.value, st, sp) == "self.connections":
+                    out.append(("register", _conn_tag(t.slice, st, sp), norm(node.value)))
+                elif isinstance(t, ast.Subscript) and canon_chain(t.value, st, sp) == "self.waiting_for_establishment":
+                    raise AnalysisError(f"unmodelled update of waiting_for_establishment: {norm(node)}")
         elif isinstance(node, ast.AugAssign) and isinstance(node.op, ast.Div) and isinstance(node.target, ast.Name) and isinstance(node.value, ast.Call):
             out.append(("push", attr_chain(node.value.func)))
         return out
 
+    truth_atoms = {"loop.error": "ERR", "loop.connected": "CONN", "self.context.server.connected": "CTXCONN", "self.context.server.error": "CTXERR",
+                   f"{ev}.via": "VIA", f"{ev}.tls": "TLS"}
+
     def atom(expr, st, sp):
-        if isinstance(expr, ast.Name) or isinstance(expr, ast.Call):
+        if isinstance(expr, ast.Name) or (isinstance(expr, ast.Call) and isinstance(expr.func, ast.Attribute) and expr.func.attr == "connection_spec_matches"):
             v = sp.v(expr, st)
-            if isinstance(v, tuple) and v and v[0] == "match":
+            if v[:1] == ("match",):
                 return ({"loop": "M", "self.context.server": "MC"}.get(v[1], "M?" + v[1]), True)
         cp = compare_pair(expr, (ast.In, ast.NotIn))
         if cp:
             pos = isinstance(cp[2], ast.In)
-            if isinstance(cp[0], ast.Name) and cp[0].id == loopvar and attr_chain(cp[1]) == "self.waiting_for_establishment":
+            coll = cp[1]
+            if isinstance(coll, ast.Call) and isinstance(coll.func, ast.Attribute) and coll.func.attr == "keys" and not coll.args:
+                coll = coll.func.value
+            who, where = canon_chain(cp[0], st, sp), canon_chain(coll, st, sp)
+            if (who, where) == ("loop", "self.waiting_for_establishment"):
                 return ("W", pos)
-            if attr_chain(cp[0]) == "self.context.server" and attr_chain(cp[1]) == "self.connections":
+            if (who, where) == ("self.context.server", "self.connections"):
                 return ("CTXIN", pos)
-        for chain, name in ((f"{loopvar}.error", "ERR"), (f"{loopvar}.connected", "CONN"), ("self.context.server.connected", "CTXCONN"),
-                            ("self.context.server.error", "CTXERR"), (f"{ev}.via", "VIA"), (f"{ev}.tls", "TLS")):
-            p = truthiness_atom(expr, chain)
-            if p is not None:
-                return (name, p)
+        ts = truthiness_subject(expr)
+        if ts is not None:
+            name = truth_atoms.get(canon_chain(ts[0], st, sp))
+            if name:
+                return (name, ts[1])
         return None
 
-    return ASpec(label=label, atom=atom, scenario=scenario, val=val, unroll=1, loop_events=True)
+    def loop_value(fornode, st, sp):
+        return sym("loop")  # whatever is iterated: the rule is about what may happen to the loop variable within one iteration
+
+    class GC(DSpec):
+        def loop_event(self, node, entered, st):
+            return ("loop", norm(node.iter), entered)
+
+    return GC(label=label, atom=atom, scenario=scenario, val=val, unroll=1, loop_value=loop_value,
+              resolver=_helper_resolver(ctx, "HttpLayer", ENTRY_POINTS))
 
 
 def _r082(ctx):
     fn = ctx.func(I, "HttpLayer.get_connection")
+    ctx.func(I, "HttpLayer.event_to_child")
     ps = params_of(fn)
     ctx.require(ps[:1] and "reuse" in ps, "HttpLayer.get_connection signature changed")
     ev = ps[0]
-    loops = loops_over(fn, lambda it: attr_chain(it) == "self.connections" or (isinstance(it, ast.Call) and attr_chain(it.func) in ("list", "tuple", "self.connections.keys") and "self.connections" in norm(it)))
-    ctx.require(len(loops) == 1 and isinstance(loops[0].target, ast.Name), "get_connection: expected one reuse loop over self.connections")
-    loopvar = loops[0].target.id
     w = (I, "HttpLayer.get_connection", fn)
 
     # (a) reuse loop: control dependence on the match
-    sp = _gc_spec(ev, loopvar, {})
-    traces, _ = run_block(fn.body, sp, {ev: ("param", ev), "reuse": C(True)})
+    sp = _gc_spec(ctx, ev, {}, fn)
+    traces, _ = run_d(fn.body, sp, {ev: ("param", ev), "reuse": C(True)})
     ctx.paths += len(traces)
     ctx.require(traces, "get_connection: no path")
     seen = {"handout": 0, "wait": 0, "error": 0}
@@ -302,7 +712,9 @@ def _r082(ctx):
                 conds[t[1]] = t[2]
             elif inloop and t[0] == "complete" and t[1] == "loop":
                 seen["handout"] += 1
-                if conds.get("M") is not True:
+                if t[2] != "None":
+                    prob.setdefault("hand-out under match", f"an existing connection is handed to the request together with an error ({t[2]})")
+                elif conds.get("M") is not True:
                     prob.setdefault("hand-out under match", "an existing connection is handed to the request without connection_spec_matches(connection) being true in this iteration")
                 elif conds.get("W") is not False:
                     prob.setdefault("hand-out while establishing", "a connection that is still being established (in waiting_for_establishment) is handed out")
@@ -330,8 +742,8 @@ def _r082(ctx):
     # (b) context connection + (c) new server
     n_new = n_reuse = 0
     for MC, CTXIN, CTXCONN in itertools.product((True, False), repeat=3):
-        sp = _gc_spec(ev, loopvar, {"MC": MC, "CTXIN": CTXIN, "CTXCONN": CTXCONN})
-        traces, _ = run_block(fn.body, sp, {ev: ("param", ev), "reuse": C(False)})
+        sp = _gc_spec(ctx, ev, {"MC": MC, "CTXIN": CTXIN, "CTXCONN": CTXCONN}, fn)
+        traces, _ = run_d(fn.body, sp, {ev: ("param", ev), "reuse": C(False)})
         ctx.paths += len(traces)
         ctx.cells += 1
         ctx.require(traces, "get_connection: no path (reuse=False)")
@@ -468,24 +880,34 @@ def _r084(ctx):
     name_p, value_p = ps
     w = (CONN, "Server.__setattr__", fn)
 
-    def is_state_read(e):
-        if attr_chain(e) == "self.state":
-            return True
-        return isinstance(e, ast.Call) and attr_chain(e.func) == "self.__dict__.get" and e.args and isinstance(e.args[0], ast.Constant) and e.args[0].value == "state"
-
-    def is_cur(e):
-        if isinstance(e, ast.Call) and attr_chain(e.func) == "self.__dict__.get" and e.args and isinstance(e.args[0], ast.Name) and e.args[0].id == name_p:
-            return True
-        return isinstance(e, ast.Call) and attr_chain(e.func) == "getattr" and len(e.args) >= 2 and attr_chain(e.args[0]) == "self" and isinstance(e.args[1], ast.Name) and e.args[1].id == name_p
+    def val(expr, st, sp):
+        # reads of the connection state / of the attribute's current value, however they are spelled or named afterwards
+        if isinstance(expr, ast.Attribute) and canon_chain(expr, st, sp) == "self.state":
+            return sym("state")
+        if isinstance(expr, ast.Call) and canon_chain(expr.func, st, sp) == "self.__dict__.get" and expr.args and not expr.keywords:
+            k = expr.args[0]
+            if isinstance(k, ast.Constant) and k.value == "state":
+                return sym("state")
+            if canon_chain(k, st, sp) == name_p:
+                return sym("cur")
+        if isinstance(expr, ast.Call) and isinstance(expr.func, ast.Name) and expr.func.id == "getattr" and len(expr.args) >= 2 and not expr.keywords:
+            if canon_chain(expr.args[0], st, sp) == "self":
+                k = expr.args[1]
+                if isinstance(k, ast.Constant) and k.value == "state":
+                    return sym("state")
+                if canon_chain(k, st, sp) == name_p:
+                    return sym("cur")
+        return None
 
     def atom(expr, st, sp):
         cp = compare_pair(expr, (ast.Is, ast.IsNot, ast.Eq, ast.NotEq))
         if cp:
             pos = isinstance(cp[2], (ast.Is, ast.Eq))
             for a, b in ((cp[0], cp[1]), (cp[1], cp[0])):
-                if is_state_read(a) and attr_chain(b) == "ConnectionState.OPEN":
+                va = sp.v(a, st)
+                if va == sym("state") and canon_chain(b, st, sp) == "ConnectionState.OPEN":
                     return ("OPEN", pos)
-                if is_cur(a) and isinstance(b, ast.Name) and b.id == value_p and isinstance(cp[2], (ast.Eq, ast.NotEq)):
+                if va == sym("cur") and canon_chain(b, st, sp) == value_p and isinstance(cp[2], (ast.Eq, ast.NotEq)):
                     return ("CHG", not pos)
         return None
 
@@ -493,14 +915,33 @@ def _r084(ctx):
         out = []
         for n in eval_order(node):
             if isinstance(n, ast.Call) and isinstance(n.func, ast.Attribute) and n.func.attr == "__setattr__" and isinstance(n.func.value, ast.Call) and last_attr(n.func.value.func) == "super":
-                out.append(("store", tuple(attr_chain(a) for a in n.args)))
+                out.append(("store", tuple(canon_chain(a, st, sp) for a in n.args)))
         return out
+
+    mod = ctx.model.module(CONN)
+
+    def const_resolver(e):
+        # `name in _FROZEN` with a module-level literal collection (possibly wrapped in frozenset()/tuple()/set())
+        if not isinstance(e, ast.Name):
+            return None
+        vals = mod.assigns(e.id)
+        if len(vals) != 1:
+            return None
+        lit = vals[0]
+        if isinstance(lit, ast.Call) and isinstance(lit.func, ast.Name) and lit.func.id in ("frozenset", "set", "tuple", "list") and len(lit.args) == 1 and not lit.keywords:
+            lit = lit.args[0]
+        if isinstance(lit, (ast.Tuple, ast.Set, ast.List)) and all(isinstance(x, ast.Constant) for x in lit.elts):
+            return lit
+        return None
+
+    resolver = _helper_resolver_in(ctx, CONN, "Server", ("__setattr__",))
 
     n = 0
     for name in ("address", "via", "peername", "sni", "state"):
         for OPEN in (True, False):
             for CHG in (True, False):
-                traces, _ = run_block(fn.body, ASpec(label=label, atom=atom, scenario={"OPEN": OPEN, "CHG": CHG}), {name_p: C(name), value_p: ("param", value_p)})
+                spec = DSpec(label=label, atom=atom, val=val, scenario={"OPEN": OPEN, "CHG": CHG}, const_resolver=const_resolver, resolver=resolver)
+                traces, _ = run_d(fn.body, spec, {name_p: C(name), value_p: ("param", value_p)})
                 ctx.cells += 1
                 ctx.require(traces, "Server.__setattr__: no path")
                 must_raise = name in ("address", "via") and OPEN and CHG
@@ -518,50 +959,73 @@ def _r084(ctx):
 
 
 # ---------------------------------------------------------------------------------------------------
-def _r085(ctx):
+def waiter_replies(ctx, err: bool):
+    """HttpLayer.register_connection in the world `command.err is set` = ``err``: (function, name of its command parameter, per path the
+    projection onto ('loop', 'waiters' | other, entered) and ('complete', who, ('reply', connection, error)) events).  `who` is `waiter`
+    for the variable of the loop over the popped waiters; replies are named by what their elements are bound to (also used by C15)."""
     fn = ctx.func(I, "HttpLayer.register_connection")
     ps = params_of(fn)
     ctx.require(len(ps) == 1, "register_connection signature changed")
     cmd = ps[0]
-    w = (I, "HttpLayer.register_connection", fn)
 
     def val(expr, st, sp):
-        if isinstance(expr, ast.Tuple) and len(expr.elts) == 2:
-            return ("tuple",) + tuple("None" if isinstance(e, ast.Constant) and e.value is None else (attr_chain(e) or norm(e)) for e in expr.elts)
-        if isinstance(expr, ast.Call) and method_call_on(expr, "self.waiting_for_establishment") == "pop" and len(expr.args) == 1 and attr_chain(expr.args[0]) == f"{cmd}.connection":
+        if isinstance(expr, ast.Tuple) and len(expr.elts) == 2 and isinstance(expr.ctx, ast.Load):
+            return ("reply", _conn_tag(expr.elts[0], st, sp), _conn_tag(expr.elts[1], st, sp))
+        if isinstance(expr, ast.Call) and isinstance(expr.func, ast.Attribute) and expr.func.attr == "pop" and canon_chain(expr.func.value, st, sp) == "self.waiting_for_establishment":
+            if len(expr.args) in (1, 2) and canon_chain(expr.args[0], st, sp) == f"{cmd}.connection":
+                return ("waiters",)
+        if isinstance(expr, ast.Call) and last_attr(expr.func) == "GetHttpConnectionCompleted":
+            if len(expr.args) != 2 or expr.keywords:
+                raise AnalysisError(f"unmodelled completion {norm(expr)}")
+            return ("completion", _conn_tag(expr.args[0], st, sp), sp.v(expr.args[1], st))
+        if isinstance(expr, ast.Call) and isinstance(expr.func, ast.Name) and expr.func.id in ("list", "tuple") and len(expr.args) == 1 and sp.v(expr.args[0], st) == ("waiters",):
             return ("waiters",)
         return None
 
     def label(node, st, sp):
         out = []
         for n in eval_order(node):
-            if isinstance(n, ast.Call) and last_attr(n.func) == "GetHttpConnectionCompleted" and len(n.args) == 2:
-                a0 = n.args[0]
-                p = n
-                while p is not None and not isinstance(p, (ast.For, ast.FunctionDef)):
-                    p = getattr(p, "_parent", None)
-                tag = "loopvar" if isinstance(p, ast.For) and isinstance(a0, ast.Name) and isinstance(p.target, ast.Name) and p.target.id == a0.id and sp.v(p.iter, st) == ("waiters",) else norm(a0)
-                out.append(("complete", tag, sp.v(n.args[1], st)))
+            if isinstance(n, ast.Call) and isinstance(n.func, ast.Attribute) and n.func.attr == "event_to_child" and len(n.args) == 2 and not n.keywords:
+                v = sp.v(n.args[1], st)
+                if v[:1] == ("completion",):
+                    out.append(("complete", v[1], v[2]))
+            elif isinstance(n, ast.Call) and last_attr(n.func) != "GetHttpConnectionCompleted":
+                for a in list(n.args) + [k.value for k in n.keywords]:
+                    if isinstance(a, (ast.Name, ast.Call)) and sp.v(a, st)[:1] == ("completion",):
+                        raise AnalysisError(f"a GetHttpConnectionCompleted is passed to something else than event_to_child: {norm(n)}")
+            elif isinstance(n, (ast.Yield, ast.YieldFrom)) and n.value is not None and not isinstance(n.value, ast.Call) and sp.v(n.value, st)[:1] == ("completion",):
+                raise AnalysisError(f"a GetHttpConnectionCompleted leaves register_connection by an unmodelled route: {norm(n)}")
         return out
 
-    class RS(ASpec):
+    def loop_value(fornode, st, sp):
+        return sym("waiter") if sp.v(fornode.iter, st) == ("waiters",) else None
+
+    class RS(DSpec):
         def loop_event(self, node, entered, st):
-            return ("loop", "waiters" if self.v(node.iter, st) == ("waiters",) else norm(node.iter), entered)
+            return ("loop", "waiters" if self.value(node.iter, st, self.cur_depth) == ("waiters",) else norm(node.iter), entered)
 
     def atom(expr, st, sp):
-        p = truthiness_atom(expr, f"{cmd}.err")
-        return ("ERR", p) if p is not None else None
+        ts = truthiness_subject(expr)
+        if ts is not None and canon_chain(ts[0], st, sp) == f"{cmd}.err":
+            return ("ERR", ts[1])
+        return None
 
+    ctx.func(I, "HttpLayer.event_to_child")
+    sp = RS(label=label, atom=atom, scenario={"ERR": err}, val=val, unroll=2, loop_value=loop_value, resolver=_helper_resolver(ctx, "HttpLayer", ENTRY_POINTS))
+    traces, _ = run_d(fn.body, sp, {cmd: ("param", cmd)})
+    ctx.paths += len(traces)
+    ctx.require(traces, "register_connection: no path")
+    return fn, cmd, [proj(tr, ("loop", "complete")) for tr, how, _ in traces]
+
+
+def _r085(ctx):
     for ERR in (True, False):
-        sp = RS(label=label, atom=atom, scenario={"ERR": ERR}, val=val, unroll=2)
-        traces, _ = run_block(fn.body, sp, {cmd: ("param", cmd)})
-        ctx.paths += len(traces)
-        ctx.require(traces, "register_connection: no path")
-        want = ("tuple", "None", f"{cmd}.err") if ERR else ("tuple", f"{cmd}.connection", "None")
+        fn, cmd, paths = waiter_replies(ctx, ERR)
+        w = (I, "HttpLayer.register_connection", fn)
+        want = ("reply", "None", f"{cmd}.err") if ERR else ("reply", f"{cmd}.connection", "None")
         bad = None
         n_it = 0
-        for tr, how, _ in traces:
-            toks = proj(tr, ("loop", "complete"))
+        for toks in paths:
             its = [i for i, t in enumerate(toks) if t[0] == "loop" and t[1] == "waiters"]
             if not its:
                 bad = ("waiters", "the requests waiting for this connection are not taken out of waiting_for_establishment and answered", toks)
@@ -570,7 +1034,7 @@ def _r085(ctx):
                 seg = [t for t in toks[a + 1 : b] if t[0] == "complete"]
                 if toks[a][2]:
                     n_it += 1
-                    if len(seg) != 1 or seg[0][1] != "loopvar":
+                    if len(seg) != 1 or seg[0][1] != "waiter":
                         bad = ("answer once", f"a waiting request is not answered exactly once (saw {seg})", toks)
                     elif seg[0][2] != want:
                         bad = ("reply", f"waiters must be answered with {want[1:]} when err is {'set' if ERR else 'empty'} (saw {seg[0][2][1:] if isinstance(seg[0][2], tuple) else seg[0][2]})"
